@@ -76,7 +76,7 @@ impl EditState {
                     continue;
                 }
                 removed_chars = (removed_chars as f32 / 2.0).ceil() as i32;
-                for x in area.x_range() {
+                for x in 0..len {
                     let ch = if area.right() - x - removed_chars >= area.left() {
                         layer.get_char((area.right() - x - removed_chars, y))
                     } else {
